@@ -7,6 +7,8 @@ CONSTANTS
   Targets = {1, 2, 3, 4, 5, 10, 11, 12, 13}
   DnsPort = {2, 5, 8}
   Allowed = {10, 12}
+  Unsendable = {}
+  DisarmFirst = TRUE
   T = 300
   DNST = 17000
   Slack = 150
@@ -19,6 +21,7 @@ CONSTANTS
   Fam <- TrFam
   DgAlpha <- TrDg
   RpAlpha <- TrRp
+  MidAlpha <- NoMid
   Sync = TRUE
   Ticks = {}
   MaxNow = 0
